@@ -352,3 +352,54 @@ Qed.
 Definition demo_sched : list action :=
   [AGet 1 (CNew 7); AWrite 1 7 100 128; AGet 2 (CNew 8); APutReset 1 7; AWrite 2 8 5 64;
    APutPool 1 7; AGet 2 (CPool 0)].
+
+(* ---------- the order of effects inside Put ---------- *)
+Lemma after_reset_shape l : after_reset l = true ->
+  exists mid, l = mid ++ [2] /\ only [1; 3] mid = true.
+Proof.
+  induction l as [|x r IH]; intro H; [discriminate|]. cbn [after_reset] in H.
+  destruct (x =? 2) eqn:E2.
+  - apply N.eqb_eq in E2. subst x. destruct r; [|discriminate]. exists []. split; reflexivity.
+  - destruct ((x =? 1) || (x =? 3)) eqn:E13; [|discriminate].
+    destruct (IH H) as (mid & -> & Hm). exists (x :: mid). split; [reflexivity|].
+    cbn [only existsb]. rewrite Hm, andb_true_r.
+    apply orb_prop in E13. destruct E13 as [E | E]; rewrite E; cbn; [reflexivity|apply orb_true_r].
+Qed.
+
+(* an accepted body is: the owner's own business, a Reset, nothing but Resets / capacity guards,
+   the release, and then nothing — the order the model's APutReset ; APutPool stands for *)
+Lemma put_shape_ok_sound l : put_shape_ok l = true ->
+  exists pre mid, l = pre ++ 1 :: mid ++ [2] /\ only [1; 3; 5] pre = true /\ only [1; 3] mid = true.
+Proof.
+  induction l as [|x r IH]; intro H; [discriminate|]. cbn [put_shape_ok] in H.
+  destruct (x =? 1) eqn:E1.
+  - apply N.eqb_eq in E1. subst x. apply orb_prop in H. destruct H as [H | H].
+    + destruct (after_reset_shape r H) as (mid & -> & Hm). exists [], mid. repeat split; assumption.
+    + destruct (IH H) as (pre & mid & -> & Hp & Hm). exists (1 :: pre), mid.
+      split; [reflexivity|]. split; [cbn [only existsb]; rewrite Hp; reflexivity|exact Hm].
+  - destruct ((x =? 3) || (x =? 5)) eqn:E35; [|discriminate].
+    destruct (IH H) as (pre & mid & -> & Hp & Hm). exists (x :: pre), mid.
+    split; [reflexivity|]. split; [|exact Hm]. cbn [only existsb]. rewrite Hp, andb_true_r.
+    apply orb_prop in E35. destruct E35 as [E | E]; rewrite E; cbn; rewrite ?orb_true_r; reflexivity.
+Qed.
+
+(* release before reset: a concrete schedule on which Get hands out a buffer with 5 bytes in it,
+   two threads own buffer 7 at once, and the second owner's 3 bytes are wiped by the first
+   owner's late Reset *)
+Lemma swapped_order_refuted :
+  exists s4 s5 sf,
+    run2 0 init (firstn 4 swapped_sched) = Some (s4, [OGot 7 (mkBuf 0 0); ONone; ONone; OGot 7 (mkBuf 64 5)]) /\
+    map h_tid (held s4) = [2; 1] /\ held_ids s4 = [7; 7] /\
+    run2 0 init (firstn 5 swapped_sched) = Some (s5, [OGot 7 (mkBuf 0 0); ONone; ONone; OGot 7 (mkBuf 64 5); ONone]) /\
+    lookup (heap s5) 7 = Some (mkBuf 64 8) /\
+    option_map fst (run2 0 init swapped_sched) = Some sf /\
+    lookup (heap sf) 7 = Some (mkBuf 64 0) /\ holds 2 7 Using (held sf) = true.
+Proof. do 3 eexists. repeat (split; [vm_compute; reflexivity|]). vm_compute. reflexivity. Qed.
+
+(* the engine's classification is consistent: an accepted body is never also reported *)
+Lemma shape_ok_examples :
+  put_shape_ok [1; 2] = true /\ put_shape_ok [2; 1] = false /\ touches_after_release [2; 1] = true /\
+  put_shape_ok [2] = false /\ release_without_reset [2] = true /\
+  put_shape_ok [5; 1; 3; 2] = true /\ put_shape_ok [1; 5; 2] = false /\ put_shape_ok [1; 2; 5] = false /\
+  capped_put_shape_ok [3; 4] = true /\ capped_put_shape_ok [4] = false.
+Proof. vm_compute. repeat split. Qed.
